@@ -1,5 +1,7 @@
 import ZV.Model.C17
+import ZV.Generated.C17
 import ZV.Proofs.C17
+import ZV.Proofs.C17B
 /-!
   C17 — the CT scanner hands every log entry of the scanned range to the matchers exactly once.
 
@@ -261,5 +263,186 @@ theorem scan_return_iff_reset (ob : Obj) (start stop batch nf nm : Nat) (scriptO
 
 example : scanReturn 5 (run (initOn ⟨32, 0, 0, 0⟩ 5 7 1 1 1 (fun _ => [])) [.f 0, .f 0, .f 0, .m 0]) = 5 + 32 + 1 := by
   simp [scanReturn, initOn, init, ranges, run, step, stepF, stepM, serve]
+
+/-! ### 7. bounded channels and the main goroutine of `Scan` as a thread
+
+`binit capF capJ …` is the state after `Scan` has started its workers; the main goroutine then feeds the `fetches`
+channel (capacity `capF`), closes it, waits for the fetchers, closes `jobs` (capacity `capJ`), waits for the
+matchers and returns.  Sends block on a full channel, receives on an empty open one.  Everything below holds for
+ALL capacities, worker counts, server scripts and schedules (lists of thread ids, main goroutine included). -/
+
+/-- Refinement: every run of the bounded model is a run of the unbounded one (`babs` forgets the split of the
+    untaken ranges into "still in the list" and "in the channel") — for all capacities, even 0. Hence every
+    safety theorem of section 3 carries over. -/
+theorem bounded_refines_unbounded (capF capJ start stop batch nf nm : Nat) (scriptOf : Nat → List Tok)
+    (ws : List BWorker) :
+    ∃ sched : List Worker, sched.length ≤ ws.length ∧
+      babs (brun (binit capF capJ start stop batch nf nm scriptOf) ws)
+        = run (init start stop batch nf nm scriptOf) sched := by
+  have := brun_refines ws _ (binit_inv capF capJ start stop batch nf nm scriptOf)
+  rw [babs_binit] at this
+  exact this
+
+/-- … in particular: at every moment of every bounded run every index of `[start, stop)` is in exactly one place
+    and none is ever processed twice. -/
+theorem bounded_invariant (capF capJ start stop batch nf nm : Nat) (scriptOf : Nat → List Tok) (hb : 1 ≤ batch)
+    (ws : List BWorker) (a : Nat) :
+    occ a (babs (brun (binit capF capJ start stop batch nf nm scriptOf) ws))
+        = (if start ≤ a ∧ a < stop then 1 else 0)
+    ∧ (brun (binit capF capJ start stop batch nf nm scriptOf) ws).st.processed.count a ≤ 1 := by
+  obtain ⟨sched, _, h⟩ := bounded_refines_unbounded capF capJ start stop batch nf nm scriptOf ws
+  have h2 := never_processed_twice start stop batch nf nm scriptOf hb sched a
+  rw [← h] at h2
+  rw [h]
+  exact ⟨interleaving_invariant start stop batch nf nm scriptOf hb sched a, h2⟩
+
+/-- Exactly once and the return value, bounded: when `Scan` has returned (the main goroutine is past
+    `matcherWG.Wait()`), the processed multiset is exactly `[start, stop)` and the return value is `stop`. -/
+theorem bounded_exactly_once (capF capJ start stop batch nf nm : Nat) (scriptOf : Nat → List Tok)
+    (hb : 1 ≤ batch) (hle : start ≤ stop) (hnf : 1 ≤ nf) (hnm : 1 ≤ nm) (ws : List BWorker)
+    (hfin : bfinished (brun (binit capF capJ start stop batch nf nm scriptOf) ws) = true) :
+    (brun (binit capF capJ start stop batch nf nm scriptOf) ws).st.processed.Perm (List.range' start (stop - start))
+    ∧ scanReturn start (brun (binit capF capJ start stop batch nf nm scriptOf) ws).st = stop := by
+  have inv := brun_inv ws _ (binit_inv capF capJ start stop batch nf nm scriptOf)
+  obtain ⟨sched, _, h⟩ := bounded_refines_unbounded capF capJ start stop batch nf nm scriptOf ws
+  have hpc : (brun (binit capF capJ start stop batch nf nm scriptOf) ws).pc = .ret := by
+    simpa [bfinished] using hfin
+  have hf : finished (babs (brun (binit capF capJ start stop batch nf nm scriptOf) ws)) = true := by
+    simp only [finished, Bool.and_eq_true]
+    exact ⟨inv.fd (Or.inr hpc), inv.md hpc⟩
+  rw [h] at hf
+  have := interleaving_exactly_once start stop batch nf nm scriptOf hb hle hnf hnm sched hf
+  rw [← h] at this
+  exact this
+
+/-- No reachable state is a deadlock: for all capacities ≥ 1, at least one fetcher and one matcher, every server
+    script and every schedule, as long as `Scan` has not returned some thread (main goroutine, a fetcher or a
+    matcher) can move — in particular a producer blocked on a full channel always has a consumer that can run. -/
+theorem bounded_no_deadlock (capF capJ start stop batch nf nm : Nat) (scriptOf : Nat → List Tok)
+    (hF : 1 ≤ capF) (hJ : 1 ≤ capJ) (hnf : 1 ≤ nf) (hnm : 1 ≤ nm) (ws : List BWorker)
+    (h : bfinished (brun (binit capF capJ start stop batch nf nm scriptOf) ws) = false) :
+    ∃ w ∈ bworkers (brun (binit capF capJ start stop batch nf nm scriptOf) ws),
+      benabled w (brun (binit capF capJ start stop batch nf nm scriptOf) ws) = true := by
+  have inv := brun_inv ws _ (binit_inv capF capJ start stop batch nf nm scriptOf)
+  have hp := brun_params ws _ (binit_inv capF capJ start stop batch nf nm scriptOf)
+  refine b_exists_enabled _ inv (by rw [hp.1]; exact hF) (by rw [hp.2.1]; exact hJ) ?_ ?_ h
+  · rw [hp.2.2.1]; simp [binit, binitOn]; omega
+  · rw [hp.2.2.2]; simp [binit, binitOn]; omega
+
+example : bfinished (brun (binit 1 1 0 3 1 1 1 (fun _ => [])) [.main, .f 0]) = false := by
+  simp [bfinished, brun, bstep, bstepMain, bstepF, binit, binitOn, ranges, stepF, Obj.new]
+
+/-- Termination under fairness: every step taken by a thread that can move strictly decreases the measure `bmu`
+    (remaining work: unserved script tokens and entries, entries in flight, threads not yet returned, ranges not
+    yet sent); a thread that cannot move (blocked or returned) leaves the state unchanged. -/
+theorem bounded_step_decreases (capF capJ start stop batch nf nm : Nat) (scriptOf : Nat → List Tok)
+    (ws : List BWorker) (w : BWorker) :
+    let b := brun (binit capF capJ start stop batch nf nm scriptOf) ws
+    (benabled w b = true → bmu (bstep w b) < bmu b) ∧ (benabled w b = false → bstep w b = b) :=
+  ⟨bstep_mu w _ (brun_inv ws _ (binit_inv capF capJ start stop batch nf nm scriptOf)), bstep_disabled w _⟩
+
+/-- … so an execution in which every step is a real step has at most `bmu binit` steps. -/
+theorem bounded_terminates (capF capJ start stop batch nf nm : Nat) (scriptOf : Nat → List Tok)
+    (ws : List BWorker) (h : BAllEnabled (binit capF capJ start stop batch nf nm scriptOf) ws) :
+    ws.length ≤ bmu (binit capF capJ start stop batch nf nm scriptOf) := by
+  have := ballEnabled_length ws _ (binit_inv capF capJ start stop batch nf nm scriptOf) h
+  omega
+
+example : BAllEnabled (binit 1 1 0 3 1 1 1 (fun _ => [])) [.main, .f 0] := by
+  simp [BAllEnabled, benabled, bstep, bstepMain, binit, binitOn, ranges, Obj.new]
+
+/-- A fair schedule finishes: after any prefix, `bmu + 1` rounds of round-robin over all threads end with `Scan`
+    returned (this is how the driver runs the bounded model; the hypothesis of `bounded_exactly_once` is
+    satisfiable for every configuration with capacities, fetchers, matchers ≥ 1). -/
+theorem bounded_round_robin_finishes (capF capJ start stop batch nf nm : Nat) (scriptOf : Nat → List Tok)
+    (hF : 1 ≤ capF) (hJ : 1 ≤ capJ) (hnf : 1 ≤ nf) (hnm : 1 ≤ nm) (pre : List BWorker) :
+    let b := brun (binit capF capJ start stop batch nf nm scriptOf) pre
+    bfinished (broundRobin b (bmu b + 1)) = true := by
+  intro b
+  have inv := brun_inv pre _ (binit_inv capF capJ start stop batch nf nm scriptOf)
+  have hp := brun_params pre _ (binit_inv capF capJ start stop batch nf nm scriptOf)
+  refine broundRobin_finishes _ b inv (by rw [hp.1]; exact hF) (by rw [hp.2.1]; exact hJ) ?_ ?_ (Nat.le_succ _)
+  · rw [hp.2.2.1]; simp [binit, binitOn]; omega
+  · rw [hp.2.2.2]; simp [binit, binitOn]; omega
+
+/-- The hypothesis "a matcher is running" of `bounded_no_deadlock` is necessary — this is the stall of a `Scan`
+    whose matchers are started only after `fetcherWG.Wait()`: with no matcher running, capacity 1 and 3 entries
+    the fetcher blocks on the full `jobs` channel and the main goroutine in `fetcherWG.Wait()`, for ever. -/
+def stallState : BSt :=
+  brun ⟨1, 1, [⟨0, 0, []⟩, ⟨1, 1, []⟩, ⟨2, 2, []⟩], .feed, ⟨[], [.idle], [], [], [], 0, []⟩⟩
+    [.main, .f 0, .f 0, .f 0, .f 0, .main, .f 0, .f 0, .f 0, .main, .main]
+
+theorem deadlock_when_no_matcher_runs :
+    bfinished stallState = false ∧ (bworkers stallState).all (fun w => !benabled w stallState) = true := by
+  decide
+
+example : binit 1 1 0 3 1 1 0 (fun _ => [])
+    = ⟨1, 1, [⟨0, 0, []⟩, ⟨1, 1, []⟩, ⟨2, 2, []⟩], .feed, ⟨[], [.idle], [], [], [], 0, []⟩⟩ := by
+  simp [binit, binitOn, ranges, Obj.new]
+
+/-! ### 8. facts extracted from the source of `Scan` (T1, `ZV.C17.Gen`, regenerated on every run) -/
+
+/-- statement of `Scan` (as printed by the extractor) ↦ operation of the model's main goroutine -/
+def MainOp.ofStmt (s : String) : Option MainOp :=
+  if s = "reset certsProcessed" ∨ s = "reset precertsSeen" ∨ s = "reset unparsableEntries"
+      ∨ s = "reset entriesWithNonFatalErrors" then some .resetCounter
+  else if s = "make fetches" then some .makeFetches
+  else if s = "make jobs" then some .makeJobs
+  else if s = "go ticker" then some .goTicker
+  else if s = "loop go matcherJob" then some .startMatchers
+  else if s = "loop go fetcherJob" then some .startFetchers
+  else if s = "loop send fetches" then some .feed
+  else if s = "close fetches" then some .closeFetches
+  else if s = "wait fetcherWG" then some .waitFetchers
+  else if s = "close jobs" then some .closeJobs
+  else if s = "wait matcherWG" then some .waitMatchers
+  else if s = "stop ticker" then some .stopTicker
+  else if s = "return" then some .ret
+  else none
+
+/-- The synchronisation statements of the real `Scan`, in source order, are exactly the program of the model's
+    main goroutine (`mainProgram`: reset ×4, make ×2, ticker, start matchers, start fetchers, feed, close(fetches),
+    fetcherWG.Wait, close(jobs), matcherWG.Wait, ticker.Stop, return), and there is no other synchronisation
+    statement besides the two `WaitGroup.Add` calls next to the `go` statements. -/
+theorem scan_order_is_model_order :
+    Gen.scanOrder.filterMap MainOp.ofStmt = mainProgram
+    ∧ Gen.scanOrder.all (fun s => (MainOp.ofStmt s).isSome || s == "loop add matcherWG" || s == "loop add fetcherWG")
+        = true := by decide
+
+/-- Both kinds of consumers are started BEFORE the first statement at which the main goroutine can block (the
+    first `fetches <- r`, a `Wait`): whenever the producer blocks on a full channel, the consumers of
+    `bounded_no_deadlock` are already running. -/
+theorem consumers_started_before_producer_blocks :
+    (((Gen.scanOrder.filterMap MainOp.ofStmt).takeWhile
+        (fun o => !(o == .feed || o == .waitFetchers || o == .waitMatchers))).contains .startMatchers
+    && ((Gen.scanOrder.filterMap MainOp.ofStmt).takeWhile
+        (fun o => !(o == .feed || o == .waitFetchers || o == .waitMatchers))).contains .startFetchers) = true := by
+  decide
+
+/-- the channel capacities in the source satisfy the hypotheses of `bounded_no_deadlock` -/
+theorem scan_capacities : 1 ≤ Gen.fetchesCap ∧ 1 ≤ Gen.jobsCap := by decide
+
+/-- `bounded_no_deadlock` at the capacities written in the source -/
+theorem scan_source_no_deadlock (start stop batch nf nm : Nat) (scriptOf : Nat → List Tok)
+    (hnf : 1 ≤ nf) (hnm : 1 ≤ nm) (ws : List BWorker)
+    (h : bfinished (brun (binit Gen.fetchesCap Gen.jobsCap start stop batch nf nm scriptOf) ws) = false) :
+    ∃ w ∈ bworkers (brun (binit Gen.fetchesCap Gen.jobsCap start stop batch nf nm scriptOf) ws),
+      benabled w (brun (binit Gen.fetchesCap Gen.jobsCap start stop batch nf nm scriptOf) ws) = true :=
+  bounded_no_deadlock _ _ start stop batch nf nm scriptOf scan_capacities.1 scan_capacities.2 hnf hnm ws h
+
+/-- Every syntactic access to one of the four counter fields in scanner.go goes through `sync/atomic`, except the
+    plain READS in `Scan` after the last `Wait()` (final log lines and the return value, which happen after every
+    worker has been joined; the only goroutine still alive, the ticker, only loads atomically). -/
+theorem counter_accesses_atomic :
+    Gen.counterAccesses.all (fun a => a.2.2.2.1 || (a.1 == "Scan" && a.2.2.1 == "read" && a.2.2.2.2)) = true := by
+  decide
+
+/-- the workers only ever ADD to the counters (the premise of `scan_return_leftover`), and `Scan` begins by
+    resetting all four with atomic stores -/
+theorem counters_workers_add_scan_resets :
+    (Gen.counterAccesses.filter (fun a => !(a.1 == "Scan" || a.1 == "Scan.func"))).all
+        (fun a => a.2.2.1 == "atomic.AddInt64") = true
+    ∧ Gen.scanOrder.take 4 = ["reset certsProcessed", "reset precertsSeen", "reset unparsableEntries",
+        "reset entriesWithNonFatalErrors"] := by decide
 
 end ZV.C17
